@@ -243,22 +243,44 @@ func (ir *IncResult) HangKind() string {
 	return "spin"
 }
 
-// PanicSite extracts the first siglens frame of a panic trace (used as violation signature).
+// PanicSite extracts the panic message and the first siglens frame of a panic trace, as
+// "<message> @ <package path>.<function> [<file>]" (no line numbers: signatures must survive edits).
 func (ir *IncResult) PanicSite() string {
 	lines := strings.Split(ir.Stderr, "\n")
 	msg := ""
 	for i, l := range lines {
 		if strings.HasPrefix(l, "panic:") || strings.HasPrefix(l, "fatal error:") {
-			msg = l
-			for _, m := range lines[i:] {
-				m = strings.TrimSpace(m)
-				if strings.HasPrefix(m, "/") && strings.Contains(m, "/pkg/") && strings.Contains(m, ".go:") {
-					f := m[strings.Index(m, "/pkg/"):]
-					if sp := strings.IndexByte(f, ' '); sp > 0 {
-						f = f[:sp]
-					}
-					return trimTo(digitsRe.ReplaceAllString(msg, "N"), 80) + " @ " + f
+			msg = digitsRe.ReplaceAllString(l, "N")
+			for k := i; k+1 < len(lines); k++ {
+				fn := strings.TrimSpace(lines[k])
+				if !strings.HasPrefix(fn, "github.com/siglens/siglens/pkg/") {
+					continue
 				}
+				fn = strings.TrimPrefix(fn, "github.com/siglens/siglens/pkg/")
+				// cut the argument list
+				depth := 0
+				for p := len(fn) - 1; p >= 0; p-- {
+					if fn[p] == ')' {
+						depth++
+					} else if fn[p] == '(' {
+						depth--
+						if depth == 0 {
+							fn = fn[:p]
+							break
+						}
+					}
+				}
+				file := strings.TrimSpace(lines[k+1])
+				if sp := strings.IndexByte(file, ' '); sp > 0 {
+					file = file[:sp]
+				}
+				if c := strings.LastIndexByte(file, ':'); c > 0 {
+					file = file[:c]
+				}
+				if sl := strings.LastIndexByte(file, '/'); sl >= 0 {
+					file = file[sl+1:]
+				}
+				return trimTo(msg, 80) + " @ " + fn + " [" + file + "]"
 			}
 			break
 		}
